@@ -224,7 +224,8 @@ def _handler_histories(ctx, res):
         footer = '<address>footer version %d</address>\n'
         macros = '<div metal:define-macro="box" class="box%d"><span metal:define-slot="body">empty</span></div>\n'
         shared = '<em>shared %d <span metal:define-slot="body">slot default of the shared part</span></em>\n'
-        files = {"site/sub/page.html.tal": page, "site/sub/footer.html.tal": footer, "site/sub/lib.html.tal": macros, "site/shared.html.tal": shared}
+        # (the shared part lies two directories above the page: the recursive loader climbs all the way)
+        files = {"site/sub/deep/page.html.tal": page, "site/sub/deep/footer.html.tal": footer, "site/sub/deep/lib.html.tal": macros, "site/shared.html.tal": shared}
         steps = [(None, 1_700_000_000)] + [(f, t) for f in files for t in (1_700_000_500, 1_700_000_500, 1_600_000_000)]
         version = {f: 0 for f in files}
 
@@ -239,7 +240,7 @@ def _handler_histories(ctx, res):
                     os.utime(tree.path(g), (t, t))
 
         def ask():
-            return pyg.request(reqs.build("gopher", "/site/sub/page.html.tal"), cfg, reset=False).out
+            return pyg.request(reqs.build("gopher", "/site/sub/deep/page.html.tal"), cfg, reset=False).out
         pyg.fresh_process_state()
         history = []
         for i in range(len(steps)):
